@@ -168,6 +168,28 @@ def check_sf_structure(ctx):
                    "the wave-number magnitudes are not sqrt(outer sum of squared components).flat[1:] — modes and wave numbers would be paired wrongly")
     else:
         ctx.undecided("INDEXAGREE", SF + ":wave-vectors", fi, "wave-vector comprehension not found")
+    # ---- SMOOTHIN: the smoother interpolates exactly the raw spectrum (non-zero modes only), whatever the other options are
+    sm = [c for c in fv.calls() if (fv.callee(c) or U(c.func)).split(".")[-1] == "SmoothData1D"]
+    if sm and len(comps) == 1 and len(cand) == 1 and len(km) == 1:
+        want_x = U(fv.expand(km[0].value, km[0], allow_mutated=True))
+        want_y = U(fv.expand(cand[0].value, cand[0], allow_mutated=True))
+        bad = None
+        for c in sm:
+            x = arg_or_kw(c, 0, "x")
+            y = arg_or_kw(c, 1, "y")
+            gx = U(fv.expand(x, c, allow_mutated=True)) if x is not None else None
+            gy = U(fv.expand(y, c, allow_mutated=True)) if y is not None else None
+            if gx != want_x or gy != want_y:
+                bad = (c, f"`{U(c)[:90]}` smooths ({(gx or '?')[:50]}…, {(gy or '?')[:50]}…)")
+                break
+            if any("add_zero" in names_in(t) for t, _p in si.effective_guards(c)):
+                bad = (c, f"`{U(c)[:90]}` depends on add_zero")
+                break
+        ctx.decide(bad is None, "SMOOTHIN", SF + ":smoother", (fi, bad[0] if bad else sm[0]),
+                   "the smoothed spectrum interpolates exactly the raw spectrum of the non-zero modes (wave-number magnitudes and normalised |f|²), independent of add_zero",
+                   (bad[1] if bad else "") + ": the smoothed values must be computed from the raw non-zero-mode spectrum only; add_zero may only prepend (0, 1) to the result")
+    else:
+        ctx.undecided("SMOOTHIN", SF + ":smoother", fi, "SmoothData1D call or raw spectrum definitions not recognised")
     # ---- PASS: requested wave numbers are returned as given
     wn = fi.params[2] if len(fi.params) > 2 else "wave_numbers"
     asg = [s for s in fv.statements() if isinstance(s, ast.Assign) and U(s.value) in (f"np.array({wn})", f"np.asarray({wn})", f"np.asarray({wn}, dtype=float)", f"np.array({wn}, dtype=float)")]
